@@ -25,7 +25,7 @@ Idle  == {c \in Clients : pend[c] = NoReq}
 
 Moves ==
      (IF nex < MaxExch THEN {<<"send", c>> : c \in Idle} ELSE {})
-  \cup (IF Cardinality(Thetas) > 1 THEN {<<"theta">>} ELSE {})
+  \cup (IF Cardinality(Thetas) > 1 /\ ~(nex = MaxExch /\ Busy = {}) THEN {<<"theta">>} ELSE {})
   \cup {<<"srecv", m>> : m \in Reqs} \cup {<<"dropq", m>> : m \in Reqs}
   \cup {<<"dupq", m>> : m \in {x \in Reqs : dupq < MaxDupReq /\ x.copy = 0}}
   \cup {<<"tcq", m>> : m \in {x \in Reqs : tcs < MaxTC /\ x.kind = "sync"}}
@@ -39,7 +39,7 @@ Moves ==
 Weight(mv) == CASE mv[1] = "send" -> 8 [] mv[1] = "theta" -> (IF Busy = {} THEN 4 ELSE 1)
                 [] mv[1] = "srecv" -> 8 [] mv[1] = "dropq" -> 1 [] mv[1] = "dupq" -> 3 [] mv[1] = "tcq" -> 2
                 [] mv[1] = "crecv" -> 8 [] mv[1] = "dropr" -> 1 [] mv[1] = "dupr" -> 3 [] mv[1] = "tcr" -> 2
-                [] mv[1] = "inject" -> 3 [] mv[1] = "timeout" -> 1
+                [] mv[1] = "inject" -> 5 [] mv[1] = "timeout" -> 1
 
 \* (the bound of the draw mentions a variable on purpose: TLC expands a top-level
 \* \E over a constant set once, at start-up, which would freeze the draw)
